@@ -47,14 +47,11 @@ Theorem C04_grammar_in_schema : included emit_grammar schema141 = true.
 Proof. vm_compute. reflexivity. Qed.
 Print Assumptions C04_grammar_in_schema.
 
-(* Full statement of DESIGN.md (NOT proved):
-     C04_schema_valid : forall d, wf_user d = true -> validate schema141 (emit d) = true
-   with (1) C04_emit_conforms : wf_user d -> conforms emit_grammar (emit d), by induction over a
-   whole-document emit model.  What is missing is exactly (1): there is no Gallina model [emit]
-   of the whole writer.  Its place is taken by a check: [conforms emit_grammar] is evaluated
-   inside Coq on every from-scratch document the implementation writes in a run (Check/C04.v),
-   which is the tie of the grammar to the code.  Proved below: every document that passes that
-   check is schema-valid. *)
+(* any document that conforms to the emit grammar (whoever produced it) and has distinct declared
+   ids is schema-valid; the full statement C04_schema_valid for the writer model follows below.
+   (The name keeps its _partial suffix from the time when the writer model did not exist; it is
+   the lemma that also covers documents outside the from-scratch domain, for which [conforms] is
+   evaluated inside Coq per document.) *)
 Theorem C04_schema_valid_partial : forall lex x,
   conforms emit_grammar lex x = true -> ids_unique schema141 x = true ->
   validate schema141 lex x = true.
